@@ -23,6 +23,7 @@ EXPLANATION = (
     "Column / Index constructor accepts; (R5) building a model's schema writes nothing but memo slots on the class "
     "(no hidden state shared along the hierarchy). (R6) _collect_fields fills the field mapping while ranging over the type hints (declaration order), not the merged class attributes; (R7) the `Field omitted` test looks at the class's own namespace (cls.__dict__), so a bare re-annotation in a subclass gets a fresh Field. " 
     " (R8) definite assignment: no function of the DataFrameModel modules reads a local that a branch-only path from its entry leaves unassigned (CFG may-analysis, optimistic about try bodies and loop bodies, correlated guards pruned) - an UnboundLocalError there would escape to_schema(). " 
+    " (R9) whether a Field alias was given is decided by `is None` only (alias 0 / '' are legal) - no truthiness test or `alias or name` fallback; (R10) Field forwards every Check option among its parameters (ignore_na, raise_warning, n_failure_cases) to every check constructor call, unfiltered by value. " 
     "NOT decided: annotation -> dtype translation; MRO semantics at run "
     "time; verdict equality on data."
 )
